@@ -17,7 +17,7 @@ LEAKS = ("core::mem::forget", "core::mem::manually_drop::ManuallyDrop", "alloc::
          "core::mem::transmute", "core::mem::zeroed", "core::mem::MaybeUninit", "alloc::vec::Vec::<T, A>::into_raw_parts", "alloc::vec::Vec::<T, A>::leak")
 # payload and stamp of a slot may change only below these two entry points, whose every dynamic write E2 classifies (helpers they call, under whatever private
 # name, are covered by the call-graph gating rule: every way of reaching the helper goes through a gate)
-GATES = {"crate::arena::Arena<T>::free_node", "crate::arena::Arena<T>::new_node"}
+GATES = {"crate::arena::Arena<T>::free_node", "crate::arena::Arena<T>::new_node"}      # the first is replaced by rules.free_node_key(prog) in main()
 E2_ENTRIES = ["detach", "checked_append", "checked_prepend", "checked_insert_after", "checked_insert_before", "append_value", "new_node", "remove", "remove_subtree", "free_node", "clear"]
 
 
@@ -26,6 +26,8 @@ def main(tier):
     run.rule = ("obligations: one per call site / write site of the inventories, one per E2 record (writes to data/stamp and payload drops are classified); non-trivial = distinct facts")
     prog = facts.load("dev", None)
     idx = rules.Index(prog)
+    global GATES
+    GATES = {rules.free_node_key(prog), "crate::arena::Arena<T>::new_node"}
     # (a) relocation
     nsites = 0
     for k, cs in idx.calls.items():
